@@ -285,6 +285,9 @@ func (t *teeWriterTo) WriteTo(w io.Writer, closeCh chan struct{}) (int64, error)
 		k := t.buf.Len() / 2
 		m, _ := w.Write(t.buf.Bytes()[:k])
 		return int64(m), ErrInjected
+	case "writeerr":
+		// the destination itself fails after a few bytes; whatever the item writer makes of that is passed on unchanged
+		return t.inner.WriteTo(&limitWriter{w: io.MultiWriter(w, &t.buf), left: 3}, closeCh)
 	case "after":
 		n, err := t.inner.WriteTo(io.MultiWriter(w, &t.buf), closeCh)
 		if err != nil {
